@@ -8,9 +8,9 @@ head = "## 12. Seeded changes (independent sub-agents) and which checks catch th
 i = s.index(head)
 table = subprocess.run([sys.executable, os.path.join(HERE, "tools", "seed_table.py")], capture_output=True, text=True).stdout
 text = head + """
-Four rounds of 19 fresh sub-agents each (76 changes). Every agent got only the text of one property and its own scratch
-git worktree of /repo under /tmp (nothing from /verif; rounds 2-4 were additionally told which ideas had already
-been used for that property, so that the four changes per property differ in mechanism). Each wrote one realistic
+Five rounds of 19 fresh sub-agents each (95 changes). Every agent got only the text of one property and its own scratch
+git worktree of /repo under /tmp (nothing from /verif; rounds 2-5 were additionally told which ideas had already
+been used for that property, so that the five changes per property differ in mechanism (round 5 was also asked to stay out of the files and functions the earlier ones had touched)). Each wrote one realistic
 regression (a tidy-up, an off-by-one, a moved statement, a swapped argument, ...) that still passes the 88 baseline
 tests, plus a stand-alone demonstration. Each change was confirmed by `tools/seed_collect.sh` in a *fresh* scratch
 worktree (demo exits 0 on HEAD, 1 with the patch; baseline pytest command passes with the patch) and then evaluated by
@@ -18,9 +18,9 @@ worktree (demo exits 0 on HEAD, 1 with the patch; baseline pytest command passes
 live in `seeded/<id>/` (`patch.diff`, `demo.py`, `notes.md`, `confirm.json`, `eval.json`, `meta.json`); none was ever
 committed to /repo, all worktrees were removed.
 
-**Result: all 76 are reported by their own property's quick check as `VIOLATION` with a concrete failing input** (not
+**Result: all 95 are reported by their own property's quick check as `VIOLATION` with a concrete failing input** (not
 merely as a broken correspondence). That was not so at first: 9 of the first 19, 14 of the second 19, 13 of the
-third 19 and 8 of the fourth 19 were initially missed or seen only as a broken correspondence. Each miss was a hole in a *generator* or a
+third 19, 8 of the fourth 19 and 11 of the fifth 19 were initially missed or seen only as a broken correspondence. Each miss was a hole in a *generator* or a
 missing *clause*, never a reason to weaken a check; what was added (all of it also runs on the unchanged tree):
 
 * round 1: coarse search grids and call provenance (C02), budget stress + reserve correspondence (C03), runs started at
@@ -45,6 +45,15 @@ missing *clause*, never a reason to weaken a check; what was added (all of it al
   arrays after constructing a transformer (C11), provenance of the poll's estimates in noisy runs - GP estimate, not raw
   observation (C13), `search_mesh_expand > 0` and the mesh size the poll actually uses (C14), feasibility of the ES's
   survivors judged by the run's own constraint function whatever the strategy's filter was handed (C18).
+
+* round 5: the internal box judged against a FRESH transform of the original bounds (C01: the run's own bound arrays had been
+  overwritten), 1-D specified-noise runs with merged repeats (C03), falsy option spellings 0 / numpy.bool_(False) and "a
+  deterministic target stays deterministic" (C04), two interpreter processes with different hash randomisation (C07), callers
+  that reuse one working array (C12), the poll set after the box filter for incumbents within 1e-12..1e-5 of a bound (C14), a
+  new injection point - the posterior update at the end of `local_gp_fitting` (C15), NaN-valued constraint regions with "not
+  satisfied = not (value <= 0)" (C17), hedge_beta up to 1000 (C18), `stobads` runs checked against the predicates only (C19),
+  mutable option values through a run (C20). Two checker bugs of my own were found on the way: tolerance predicates written as
+  `abs(a - b) > tol` let NaN through (now `not (abs(a - b) <= tol)` everywhere), and a transient race in the axiom audit.
 
 Two of those generator extensions exposed genuine defects on the pinned tree (section 11: `noise_size` with specified
 noise; three boolean advanced options), which were repaired by `fix:` commits; one more (`fit_lik=False`) is a known finding.
